@@ -238,11 +238,16 @@ pub fn gen_combined(rng: &mut Rng, cfg: &GenCfg) -> T {
   let mut inner = if cfg.fixed_files { gen_map(rng, &orig_text, false, &default_content) } else { gen_map(rng, &orig_text, false, &|s| format!("ab;cd {s}\nsecond line;\nthird\n")) };
   // the inner map's files live in their own name space (a name shared with the outer map would have to carry the same content)
   for (k, sname) in inner.sources.iter_mut().enumerate() { *sname = format!("in{k}.js"); }
-  if cfg.mb && rng.chance(3) { inner.sources[0] = inner_name.to_string(); } // inner source also named like the inner file
+  let self_named = rng.chance(if cfg.mb { 3 } else { 8 }); // inner source also named like the inner file (see below)
   // outer map over gen_text, one of the sources is the inner source name
   let mut outer = gen_map(rng, &gen_text, false, &default_content);
   let k = rng.below(outer.sources.len());
   outer.sources[k] = inner_name.to_string();
+  // a file named like the generated text (such a name once served as de-duplication key for the inner source: F15)
+  if !cfg.fixed_files && !gen_text.is_empty() && rng.chance(8) {
+    if outer.sources.len() > 1 && rng.chance(2) { let k2 = (k + 1) % outer.sources.len(); outer.sources[k2] = gen_text.clone(); }
+    else { let n = inner.sources.len(); inner.sources[rng.below(n)] = gen_text.clone(); }
+  }
   // make the outer locations point into orig_text
   let lines: Vec<&str> = orig_text.split_inclusive('\n').collect();
   let mut ms: Vec<Mapping> = SourceMap::new(outer.mappings.clone(), vec![], vec![], vec![]).decoded_mappings().collect();
@@ -260,5 +265,11 @@ pub fn gen_combined(rng: &mut Rng, cfg: &GenCfg) -> T {
   if !give_orig && !outer.contents.is_empty() { outer.contents[k] = orig_text.clone(); }
   if !give_orig && outer.contents.is_empty() { outer.contents = outer.sources.iter().map(|s| if s == inner_name { orig_text.clone() } else { default_content(s) }).collect(); }
   outer.root = None;
+  if self_named {
+    // the same file under the same name: it has to carry the same content wherever it is listed
+    inner.sources[0] = inner_name.to_string();
+    if inner.contents.len() < inner.sources.len() { inner.contents = inner.sources.iter().map(|s| format!("ab;cd {s}\nsecond line;\nthird\n")).collect(); }
+    inner.contents[0] = orig_text.clone();
+  }
   T::Sms { text: gen_text, name: inner_name.into(), map: outer, orig: if give_orig { Some(orig_text) } else { None }, inner: Some(inner), remove: rng.chance(3) }
 }
